@@ -72,7 +72,7 @@ PROPS = {
         'level': 'proof',
     },
     'C13': {
-        'modules': ['contracts.c14_expr', 'contracts.c13_term', 'contracts.c15_toposort', 'contracts.c12_legal'],
+        'modules': ['contracts.c14_expr', 'contracts.c13_term', 'contracts.c15_toposort', 'contracts.c12_legal', 'contracts.c13_options'],
         'standins': ['prophyc_robust', 'isar_order'],
         'trusted': PYVC_TRUST + ['ply / ElementTree / argparse internals (assumed contracts)'],
         'assumptions': ['exception classes the property does not list (xml ParseError, the bare Exception of patch.py, OSError) are reported as notes'],
@@ -82,7 +82,7 @@ PROPS = {
     },
     'C16': {
         'modules': ['contracts.c16_files', 'contracts.c16_pyinclude', 'contracts.c16_include'],
-        'standins': ['multifile'],
+        'static': ['vf.effects:check_shared_state'], 'standins': ['multifile'],
         'trusted': PYVC_TRUST + ['os.path.* / codecs.open (opaque contracts)'],
         'assumptions': ['end-to-end equivalence with the concatenated file over directory arrangements: bounded stand-in',
                         'two included files with the same stem are outside the property (their outputs would collide as well)'],
